@@ -161,6 +161,19 @@ static void run_block_t(Ctx &c) {
       for (long i = 0; i < n; ++i) if (oh[2*i] != out[i](0) || oh[2*i+1] != out[i](1)) { c.fail("spmv", "hybrid-backend", fmt("block row %ld", i)); break; }
       std::vector<double> rh(2 * n, 7.0); be::residual(ys, *H, xs, rh);
       for (long i = 0; i < n; ++i) if (rh[2*i] != rb[i](0) || rh[2*i+1] != rb[i](1)) { c.fail("residual", "hybrid-backend", fmt("block row %ld", i)); break; }
+      // the same matrix with its zero entries not stored: the scalar rows of a block row then touch different block columns, which is
+      // what the scalar-to-block conversion behind copy_matrix has to merge (structurally dense blocks above never exercise that)
+      { auto Az = std::make_shared<be::crs<double> >(); Az->set_size(2 * n, 2 * m, true);
+        for (long i = 0; i < 2 * n; ++i) { ptrdiff_t w = 0; for (ptrdiff_t j = As->ptr[i]; j < As->ptr[i+1]; ++j) if (As->val[j] != 0) ++w; Az->ptr[i+1] = w; }
+        Az->set_nonzeros(Az->scan_row_sizes());
+        for (long i = 0; i < 2 * n; ++i) { ptrdiff_t h = Az->ptr[i]; for (ptrdiff_t j = As->ptr[i]; j < As->ptr[i+1]; ++j) if (As->val[j] != 0) { Az->col[h] = As->col[j]; Az->val[h] = As->val[j]; ++h; } }
+        auto Hz = HB::copy_matrix(Az, typename HB::params());
+        std::vector<double> oz(2 * n); for (long i = 0; i < 2 * n; ++i) oz[i] = mk<double>::poison((int)i % 3);
+        be::spmv(al, *Hz, xs, 0.0, oz);
+        for (long i = 0; i < n; ++i) if (oz[2*i] != out[i](0) || oz[2*i+1] != out[i](1)) { c.fail("spmv", "hybrid-backend-ragged-blocks", fmt("block row %ld", i)); break; }
+        std::vector<double> rz(2 * n, 7.0); be::residual(ys, *Hz, xs, rz);
+        for (long i = 0; i < n; ++i) if (rz[2*i] != rb[i](0) || rz[2*i+1] != rb[i](1)) { c.fail("residual", "hybrid-backend-ragged-blocks", fmt("block row %ld", i)); break; }
+        c.res.counts["hybrid_ragged_blocks"]++; }
       // mixed precision: single-precision blocks applied to double-precision scalar vectors (small integers: exact in both)
       { typedef amgcl::static_matrix<float,2,2> BF; typedef be::builtin_hybrid<BF> HF; auto Af = std::make_shared<be::crs<float> >(*As);
         auto Hf = HF::copy_matrix(Af, typename HF::params());
